@@ -167,7 +167,7 @@ def _task_inner(arg):
                 cnt_c = dyn.Counter()
                 if agmod is not None:
                     cnt_c.patch(agmod)
-                    for inp in prog.inputs[:3]:
+                    for inp in prog.inputs[:2]:
                         for dec in prog.decisions[:2]:
                             r0 = progen.run_program(mod, mod.f, inp, dec)
                             cnt_o.reset()
@@ -205,7 +205,7 @@ def build_tasks(run, quick):
     import c04_exprs as cx
     ncfg = len(cx.configs())
     sk_info = {}
-    sk = list(progen.skeleton_programs(4 if quick else 5, 3, cap=(160 if quick else 2000),
+    sk = list(progen.skeleton_programs(4 if quick else 5, 3, cap=(120 if quick else 2000),
                                        rng=random.Random(run.rng.getrandbits(32)), info=sk_info))
     rnd = list(progen.random_programs(random.Random(run.rng.getrandbits(32)), 80 if quick else 800, size=12))
     ctx = cx.context_programs() + cx.lambda_programs()
